@@ -9,9 +9,12 @@ CHECKS = {
     'C01': checks_source.c01,
     'C05': checks_vm.c05,
     'C10': checks_source.c10,
+    'C11': checks_io.c11,
     'C12': checks_source.c12,
     'C13': checks_source.c13,
     'C14': checks_source.c14,
+    'C06': checks_io.c06,
+    'C07': checks_io.c07,
     'C08': checks_io.c08,
     'C09': checks_vm.c09,
     'C15': checks_vm.c15,
